@@ -32,6 +32,21 @@ CLAIMS = {
         "note": TRUSTED,
         "technique": "who-must-call + CFG dominance over discovered enumerators, keyword-plumbing tables, ownership/aliasing rule for FilterSet",
     },
+    "C08": {
+        "text": "Pairing / producer-consumer / sibling-agreement analysis on all paths of the current source: every "
+                "push_scope on the shared resolver is popped on all exits incl. exceptional (CFG with exception edges, "
+                "exceptions thrown into context-manager yields included); at the two sites that merge operation-level and "
+                "path-level parameters the merge order is checked against the computed duplicate policy of the consumer "
+                "(last-wins) or the de-duplicating helper is checked to drop shadowed path-level entries; the four "
+                "operation constructors call make_operation with merged parameters and raw/resolved in order, the three "
+                "lookups probe the traversal-key cache before constructing and insert the same object afterwards; parsing "
+                "errors become Err(path, method) per operation; the YAML loader keeps non-string keys as text, drops the "
+                "timestamp resolver, and is the only YAML entry point. Not decided: access-order independence of the three "
+                "caches as a history property, recursion limits, value-level resolution.",
+        "design_ref": "DESIGN.md §4 C08",
+        "note": TRUSTED,
+        "technique": "CFG pairing (release post-dominates acquire on all exits), computed producer/consumer policy, sibling agreement of constructors, who-may-call for YAML loads",
+    },
     "C11": {
         "text": "Protocol-shape analysis: the events a function can emit on any path (normal, anticipated-fault and "
                 "explicit-raise paths; callees that emit are inlined) form an NFA that is checked for inclusion in a "
